@@ -79,13 +79,16 @@ SIMS = [("Tracker_simg_k1q1.cfg", 1, 1, ["c1", "c2"]),
         ("Tracker_sim_k1q1.cfg", 1, 1, ["c1", "c2"]),
         ("Tracker_sim_k1q1c3.cfg", 1, 1, ["c1", "c2", "c3"]),
         ("Tracker_sim_k2q1.cfg", 2, 1, ["c1", "c2"]),
-        ("Tracker_sim_k2q2.cfg", 2, 2, ["c1", "c2", "c3"])]
+        ("Tracker_sim_k2q2.cfg", 2, 2, ["c1", "c2", "c3"]),
+        # all instruction sequences at the tracker, including direct over a recorded recursive pin
+        ("Tracker_sim_k1q1dg.cfg", 1, 1, ["c1", "c2"])]
 
 
 def pipeline(ctx, want):
     """want: list of verdict classes that are violations for this property"""
     # SPEC
     ctx.tlc("Tracker.tla", "Tracker_mc_quick.cfg", workers=12, timeout=1500)
+    ctx.tlc("Tracker.tla", "Tracker_mc_dg.cfg", workers=12, timeout=1500)
     # liveness under worker/daemon fairness: once the instructions stop the tracker comes to rest
     ctx.tlc("Tracker.tla", "Tracker_live.cfg", workers=8, timeout=1500)
     if not ctx.quick():
